@@ -155,24 +155,28 @@ Theorem C16_split_uri_plain : forall uri n len, no_char "?" uri = true -> no_cha
    +++ urlencode [("count", dec n); ("suffix-length", dec len)])%string.
 Proof. exact (fun uri n len hq hh => split_plain rdump_facts uri n len eq_refl hq hh eq_refl eq_refl eq_refl eq_refl). Qed.
 
-(* --multi-timestamp on a concrete record: every expanded record keeps all fields and values of the record
-   (fields named ts / ts_description are replaced), there is one per datetime field, a record without datetime
-   field is written as it is -- but the expanded records do NOT keep the record's metadata (known finding
-   C16-multi-timestamp-drops-metadata): the statement with [expand_spec] is what the property asks for. *)
-Theorem C16_multi_timestamp_fields : forall now r,
-  map strip_meta (expand_impl now r) = map strip_meta (expand_spec r)
-  /\ List.length (expand_impl now r) = Nat.max 1 (List.length (filter cf_dt (c_fields r)))
-  /\ (forall r' f, In r' (expand_impl now r) -> In f (c_fields r) -> is_ts_name (cf_name f) = false -> In f (c_fields r')).
-Proof. exact (fun now r => conj (expand_same_fields now r) (conj (expand_count now r) (expand_keeps_fields now r))). Qed.
-Theorem C16_multi_timestamp_metadata_partial : forall now r,
-  filter cf_dt (c_fields r) = [] -> expand_impl now r = expand_spec r.
-Proof. exact expand_partial. Qed.
+(* --multi-timestamp on a concrete record: one written record per datetime field (the record itself when it has
+   none); each keeps all fields and values of the record (fields named ts / ts_description are replaced) AND the
+   record's metadata -- hence the --record-source / --record-classification overrides, which `selected` has already
+   applied.  The generated fact is which reserved fields iter_timestamped_records copies from the original. *)
+Theorem C16_generated_expand_metadata : meta_all_copied (f_expand_meta rdump_facts) = true.
+Proof. reflexivity. Qed.
+Theorem C16_multi_timestamp : forall now r,
+  expand_impl (f_expand_meta rdump_facts) now r = expand_spec r
+  /\ List.length (expand_spec r) = Nat.max 1 (List.length (filter cf_dt (c_fields r)))
+  /\ (forall r' f, In r' (expand_spec r) -> In f (c_fields r) -> is_ts_name (cf_name f) = false -> In f (c_fields r'))
+  /\ (forall r', In r' (expand_spec r) -> c_meta r' = c_meta r).
+Proof. exact (multi_timestamp_full (f_expand_meta rdump_facts) eq_refl). Qed.
+(* Without the copying (the code before repo commit 4a5ea6a) the statement is false: the fresh TimestampRecord's
+   reserved fields win and --record-source is lost. *)
 Definition r_with_datetime : crec :=
   {| c_name := "t"; c_fields := [{| cf_name := "d"; cf_dt := true; cf_val := VId 1 |}];
      c_meta := {| m_source := Some "SRC2"%string; m_class := None; m_generated := 7 |} |}.
-Theorem C16_multi_timestamp_metadata_refuted :
+Theorem C16_multi_timestamp_uncopied_metadata_refuted :
+  let F := with_expand_meta rdump_facts [] in
   let r' := expand_one (fresh_meta 0) r_with_datetime {| cf_name := "d"; cf_dt := true; cf_val := VId 1 |} in
-  expand_impl 0 r_with_datetime = [r'] /\ m_source (c_meta r_with_datetime) = Some "SRC2"%string /\ m_source (c_meta r') = None.
+  expand_impl (f_expand_meta F) 0 r_with_datetime = [r']
+  /\ m_source (c_meta r_with_datetime) = Some "SRC2"%string /\ m_source (c_meta r') = None.
 Proof. repeat split. Qed.
 
 (* non-vacuity: options with a live query parameter and sources with a failure exist *)
